@@ -52,7 +52,15 @@ type opRec struct {
 	end       int64
 	errText   string
 	app       bool // performed by the embedding application outside the dispatcher
+	// a request with several entries (same node more than once, mixed with other nodes): the entries
+	// take effect in order within the one dispatcher step; per node it is one operation
+	entries []entry   // the plan: (node, value) per entry (value unused for reads)
+	derived []*opRec  // after execution: one record per node touched
+	chain   []int     // derived write: every value the request wrote to this node, in order (val = the last)
+	multi   bool      // derived from a multi-entry request
 }
+
+type entry struct{ node, val int }
 
 var clock atomic.Int64
 
@@ -277,7 +285,7 @@ func check(r *h.Result, d *h.Driver, k int, ops []*opRec, dispOrder []int) {
 	}
 	hasApp := false
 	for _, o := range ops {
-		hasApp = hasApp || o.app
+		hasApp = hasApp || o.app || o.multi
 	}
 	for node, l := range perNode {
 		if len(l) > 64 {
@@ -309,7 +317,13 @@ func check(r *h.Result, d *h.Driver, k int, ops []*opRec, dispOrder []int) {
 				if o.app {
 					pre = "a"
 				}
-				if o.write {
+				if o.write && len(o.chain) > 1 {
+					// the entries of one request take effect in order
+					for _, v := range o.chain {
+						lin = append(lin, fmt.Sprintf("w:%d:%d", o.node, v))
+						want = append(want, "ok")
+					}
+				} else if o.write {
 					lin = append(lin, fmt.Sprintf("%sw:%d:%d", pre, o.node, o.val))
 					want = append(want, "ok")
 				} else {
@@ -321,7 +335,7 @@ func check(r *h.Result, d *h.Driver, k int, ops []*opRec, dispOrder []int) {
 		}
 	}
 	if hasApp {
-		r.Hit("history-with-application-steps")
+		r.Hit("history-with-application-steps-or-multi-entry-requests")
 		r.TracesValidated++
 		return
 	}
@@ -392,6 +406,85 @@ func mapRaceChild() {
 	fmt.Println("survived")
 }
 
+// execMulti sends one Write / Read request with several entries and derives one operation per node.
+// atomic: no application goroutine runs next to the clients, so the entries of the request take effect
+// together (one dispatcher step) and each node sees ONE operation; otherwise application steps can fall
+// between the entries and every entry is an operation of its own (same interval).
+func execMulti(ctx context.Context, c *opcua.Client, ids []*ua.NodeID, op *opRec, atomic bool) {
+	perNode := map[int]*opRec{}
+	var order []int
+	rec := func(node int) *opRec {
+		if !atomic {
+			node = -1 - len(order) // a fresh record per entry
+		}
+		if perNode[node] == nil {
+			perNode[node] = &opRec{id: op.id*16 + len(order) + 1<<40, write: op.write, multi: true, ok: true}
+			order = append(order, node)
+		}
+		return perNode[node]
+	}
+	if op.write {
+		req := &ua.WriteRequest{}
+		for _, e := range op.entries {
+			req.NodesToWrite = append(req.NodesToWrite, &ua.WriteValue{NodeID: ids[e.node], AttributeID: ua.AttributeIDValue,
+				Value: &ua.DataValue{EncodingMask: ua.DataValueValue, Value: ua.MustVariant([]int32{int32(e.val), int32(e.val)})}})
+			x := rec(e.node)
+			x.node = e.node
+			x.chain = append(x.chain, e.val)
+			x.val = e.val // the last entry for the node is what stays
+		}
+		op.inv = clock.Add(1)
+		resp, err := c.Write(ctx, req)
+		op.resp = clock.Add(1)
+		if err != nil || len(resp.Results) != len(op.entries) {
+			op.errText = fmt.Sprint("multi-entry write: ", err)
+			return
+		}
+		for i, st := range resp.Results {
+			if st != ua.StatusOK {
+				op.errText = fmt.Sprintf("multi-entry write: entry %d answered %v", i, st)
+			}
+		}
+	} else {
+		req := &ua.ReadRequest{MaxAge: float64(op.id), TimestampsToReturn: ua.TimestampsToReturnNeither}
+		for _, e := range op.entries {
+			req.NodesToRead = append(req.NodesToRead, &ua.ReadValueID{NodeID: ids[e.node], AttributeID: ua.AttributeIDValue})
+		}
+		op.inv = clock.Add(1)
+		resp, err := c.Read(ctx, req)
+		op.resp = clock.Add(1)
+		if err != nil || len(resp.Results) != len(op.entries) {
+			op.errText = fmt.Sprint("multi-entry read: ", err)
+			return
+		}
+		seen := map[int]bool{}
+		for i, dv := range resp.Results {
+			x := rec(op.entries[i].node)
+			x.node = op.entries[i].node
+			val := -2000
+			if v, ok := dv.Value.Value().([]int32); ok && dv.Status == ua.StatusOK && len(v) == 2 && v[0] == v[1] {
+				val = int(v[0])
+			} else {
+				x.ok = false
+			}
+			// one request is one dispatcher step: two entries for the same node see the same value
+			if atomic && seen[x.node] && x.val != val {
+				x.val = -3000
+			}
+			if !atomic || !seen[x.node] {
+				x.val = val
+			}
+			seen[x.node] = true
+		}
+	}
+	for _, node := range order {
+		x := perNode[node]
+		x.inv, x.resp = op.inv, op.resp
+		op.derived = append(op.derived, x)
+	}
+	op.ok = true
+}
+
 func main() {
 	if os.Getenv("C34_CHILD") == "maprace" {
 		mapRaceChild()
@@ -407,7 +500,7 @@ func main() {
 		return
 	}
 	defer d.Close()
-	r.Rule = "case = one concurrent history: 4 real clients (own connection and session) x 16 operations (read / write of the Value attribute; unique array values [id,id], half of the writes with a non-monotone client source timestamp, a quarter of the reads with an IndexRange, MaxAge = operation id) over 3 fresh shared nodes (two nodes of a node namespace, one key of a map namespace), in every second history plus an application goroutine that replaces and reads the values of the two nodes directly (Node.SetAttribute / Node.Value, outside the dispatcher); all events stamped by one atomic logical clock; the merged trace (invocation, hooked dispatcher step, response) must be accepted by Linear.mrun over the attribute service model and the results must equal Access.run in dispatcher order; oracle: exhaustive linearizability search on the client-side history per node; distinct by the whole trace"
+	r.Rule = "case = one concurrent history: 4 real clients (own connection and session) x 16 operations (read / write of the Value attribute; unique array values [id,id], half of the writes with a non-monotone client source timestamp, a quarter of the reads with an IndexRange, MaxAge = operation id) over 3 fresh shared nodes (two nodes of a node namespace with the ids i=N and s=N (a string id with the same text), one key of a map namespace); in every second history 40 % of the requests carry 2-4 entries (the same node several times, mixed with other nodes; the entries take effect in order within one dispatcher step), in every second history plus an application goroutine that replaces and reads the values of the two nodes directly (Node.SetAttribute / Node.Value, outside the dispatcher); all events stamped by one atomic logical clock; the merged trace (invocation, hooked dispatcher step, response) must be accepted by Linear.mrun over the attribute service model and the results must equal Access.run in dispatcher order; oracle: exhaustive linearizability search on the client-side history per node; distinct by the whole trace"
 
 	if o.Replay != "" {
 		if k, ops, ok := parseTrace(o.Replay); ok {
@@ -536,6 +629,10 @@ func main() {
 				continue
 			}
 			ids[k] = ua.NewNumericNodeID(ns.ID(), nextNode)
+			if k == 1 {
+				// a STRING id whose text is the number of node 0 (i=N and s="N" are different nodes)
+				ids[k] = ua.NewStringNodeID(ns.ID(), fmt.Sprint(ids[0].IntID()))
+			}
 			nodes[k] = ns.AddNode(server.NewVariableNode(ids[k], fmt.Sprintf("n%d", nextNode), []int32{0, 0}))
 		}
 		plans := make([][]*opRec, nClients)
@@ -554,6 +651,23 @@ func main() {
 				} else if rnd.Chance(25) {
 					op.rng = []string{"0", "1", "0:1"}[rnd.Intn(3)]
 				}
+				if round%4 >= 2 && rnd.Chance(40) {
+					// (histories 0 mod 4 stay plain: they are validated against the hooked dispatcher order)
+					// 2-4 entries; a third of the time the first node again (the same node more than once)
+					op.entries = []entry{{op.node, op.id}}
+					for n := 1 + rnd.Intn(3); n > 0; n-- {
+						e := entry{node: rnd.Intn(nNodes)}
+						if rnd.Chance(35) || round%4 == 3 {
+							e.node = op.node
+						}
+						if op.write {
+							nextOp++
+							e.val = nextOp
+						}
+						op.entries = append(op.entries, e)
+					}
+					op.rng, op.stamp = "", 0
+				}
 				plans[c] = append(plans[c], op)
 			}
 		}
@@ -568,6 +682,10 @@ func main() {
 				defer wg.Done()
 				<-start
 				for _, op := range plans[c] {
+					if len(op.entries) > 0 {
+						execMulti(ctx, clients[c], ids, op, round%2 == 0)
+						continue
+					}
 					if op.write {
 						// the value is the array [id, id]; some writes carry a client side source
 						// timestamp, and those are not monotone (clients with skewed clocks)
@@ -660,6 +778,13 @@ func main() {
 			for _, op := range p {
 				x := dl.at[op.id]
 				op.begin, op.end = x[0], x[1]
+				if len(op.entries) > 0 {
+					if op.errText != "" {
+						all = append(all, op)
+					}
+					all = append(all, op.derived...)
+					continue
+				}
 				all = append(all, op)
 			}
 		}
@@ -677,6 +802,11 @@ func main() {
 				r.Hit("write")
 			} else {
 				r.Hit("read")
+			}
+			if op.multi && op.write {
+				r.Hit("multi-entry-write")
+			} else if op.multi {
+				r.Hit("multi-entry-read")
 			}
 			if op.app {
 				r.Hit("application-step")
@@ -696,7 +826,7 @@ func main() {
 		}
 	}
 	r.Notes = append(r.Notes, fmt.Sprintf("requests that went through the dispatcher without an operation id (session handling): %d", dl.others))
-	for _, b := range []string{"read", "write", "node-history-linearizable", "overlapping-pairs", "application-step", "history-with-application-steps"} {
+	for _, b := range []string{"read", "write", "node-history-linearizable", "overlapping-pairs", "application-step", "history-with-application-steps-or-multi-entry-requests", "multi-entry-write", "multi-entry-read"} {
 		if r.Distribution[b] == 0 {
 			r.Unreached = append(r.Unreached, b)
 		}
